@@ -22,7 +22,8 @@ def main(argv):
   sys.path.insert(0, os.path.join(HERE, 'mutants'))
   import specs
   names = [a for a in argv if not a.startswith('--')]
-  verify = '--verify-tests' in argv
+  verify = '--verify-tests' in argv or '--tests-only' in argv
+  tests_only = '--tests-only' in argv
   runs = os.environ.get('VERIF_SENS_RUNS', '')
   results = {}
   respath = os.path.join(HERE, 'mutants', 'results.json')
@@ -54,7 +55,7 @@ def main(argv):
         entry['tests_out'] = r.stdout.strip()[-300:]
         print(sp['name'], 'tests_pass=', entry['tests_pass'],
               f'{time.time() - t0:.0f}s', r.stdout.strip()[-200:])
-      for prop in sp['props']:
+      for prop in ([] if tests_only else sp['props']):
         if not os.path.exists(os.path.join(HERE, 'sim', 'props', prop.lower() + '.py')):
           continue
         env = dict(os.environ, VERIF_REPO=work, VERIF_NO_EVIDENCE='1')
